@@ -259,6 +259,97 @@ func (s *ownSweep) checkConsumed() int {
 					continue
 				}
 				if _, isDefer := in.(*ssa.Defer); isDefer {
+					// a deferred hand-over runs before the caller sees the results: nothing that points
+					// into the object may be returned
+					cc := ci.Common()
+					callee := cc.StaticCallee()
+					if callee == nil {
+						continue
+					}
+					for j, a := range cc.Args {
+						isPut := callee.String() == "(*sync.Pool).Put" && j == 1
+						if !isPut && !cons[paramKey{callee, j}] {
+							continue
+						}
+						r := rootOf(a)
+						if c, isC := r.(*ssa.Const); isC && c.Value == nil {
+							continue
+						}
+						n++
+						derived := map[ssa.Value]bool{r: true}
+						derivedCells := map[*ssa.Alloc]bool{}
+						for changed := true; changed; {
+							changed = false
+							for _, bb := range fn.Blocks {
+								for _, ii := range bb.Instrs {
+									if st, ok := ii.(*ssa.Store); ok {
+										if al, ok := st.Addr.(*ssa.Alloc); ok && derived[st.Val] && !derivedCells[al] {
+											derivedCells[al] = true
+											changed = true
+										}
+										continue
+									}
+									v, ok := ii.(ssa.Value)
+									if !ok || derived[v] {
+										continue
+									}
+									switch x := ii.(type) {
+									case *ssa.Call:
+										refLike := false
+										switch x.Type().Underlying().(type) {
+										case *types.Slice, *types.Pointer:
+											refLike = true
+										}
+										if refLike && len(x.Call.Args) > 0 && derived[rootOf(x.Call.Args[0])] && x.Call.StaticCallee() != nil && x.Call.StaticCallee().Signature.Recv() != nil {
+											derived[v] = true
+											changed = true
+										}
+									case *ssa.Slice:
+										if derived[x.X] {
+											derived[v] = true
+											changed = true
+										}
+									case *ssa.Phi:
+										for _, e := range x.Edges {
+											if derived[e] {
+												derived[v] = true
+												changed = true
+											}
+										}
+									case *ssa.UnOp:
+										// load from a local (e.g. a named result) that was assigned a derived value
+										if al, ok := x.X.(*ssa.Alloc); ok && x.Op == token.MUL && derivedCells[al] {
+											derived[v] = true
+											changed = true
+										}
+									case *ssa.TypeAssert, *ssa.ChangeType, *ssa.MakeInterface:
+										if derived[rootOf(v)] && rootOf(v) != v {
+											derived[v] = true
+											changed = true
+										}
+									}
+								}
+							}
+						}
+						var bad []string
+						for _, bb := range fn.Blocks {
+							for _, ii := range bb.Instrs {
+								if ret, ok := ii.(*ssa.Return); ok {
+									for _, res := range ret.Results {
+										if derived[res] || derived[rootOf(res)] {
+											bad = append(bad, fmt.Sprintf("%s at %s", ret.String(), s.p.relPos(ret.Pos())))
+										}
+									}
+								}
+							}
+						}
+						detail := fmt.Sprintf("deferred %s arg %d", shortFn(callee), j)
+						if len(bad) == 0 {
+							s.oblige(fn, "consumed", detail, in.Pos(), true, fmt.Sprintf("nothing that points into %s is returned past the deferred hand-over to %s", r.Name(), shortFn(callee)))
+						} else {
+							s.oblige(fn, "consumed", detail, in.Pos(), false, fmt.Sprintf("%s goes back to its pool when the function returns (deferred %s), but a value pointing into it is returned: %s", r.Name(), shortFn(callee), strings.Join(bad, "; ")))
+						}
+					}
 					continue
 				}
 				cc := ci.Common()
